@@ -257,6 +257,21 @@ pub fn run(ctx: &Ctx) -> i32 {
                     }
                     stats.class("transition walk: silent burst of 255..65537 register writes before the lookup");
                 }
+                // aliases: a write to an address that only looks like a bus-controller register to a sloppy decoder
+                // (register + k x 2^8 / 2^16 / 2^24, one of bits 8-31 flipped) is refused or lands in plain storage -
+                // the settings, and so every cost, stay what they are
+                if x % 211 == 3 {
+                    let y = sample(&mut runner, &any32);
+                    let base = 0xfee020u32 + (y % 7);
+                    let a = match (y >> 3) & 3 {
+                        0 => base.wrapping_add(0x100 * (1 + ((y >> 8) & 3))),
+                        1 => base.wrapping_add(0x0100_0000 * (1 + ((y >> 8) & 0xff) % 255)),
+                        2 => base ^ (1u32 << (8 + ((y >> 8) % 24))),
+                        _ => base.wrapping_add(0x1_0000 * (1 + ((y >> 8) & 1))),
+                    };
+                    let _ = emu.cpu.bus.write(a, (y >> 24) as u8);
+                    stats.class("transition walk: stray write to an alias of a bus-controller register");
+                }
                 let ki = ((x >> 20) % 6) as usize;
                 let own = (x >> 24) & 1 == 1 && !matches!(KINDS[ki], Kind::L | Kind::M);
                 // a lookup somewhere else first (any area, on-chip RAM, I/O registers)
